@@ -1,7 +1,9 @@
 """Canonical, JSON-able rendering of blackbird values, programs and outcomes.
 
-The rendering is type-tagged and strict: any difference between two renderings is a
-real difference in content.  It is used as the compared observable by every check.
+The rendering is type-tagged: any difference between two renderings is a real difference
+in content (values, container kinds, key order, numpy dtypes of arrays).  Scalar
+subclasses are NOT told apart from their Python base class (np.float64 renders like float,
+np.str_ like str): the properties do not distinguish them either.  It is used as the compared observable by every check.
 It never draws random numbers and never reads a clock.
 """
 import hashlib
